@@ -186,6 +186,9 @@ func (c *shardedMapOf[V]) ExpireAll(ctx context.Context) {
 		b.Unlock()
 	}
 
+	// Entries have expiration now, janitor of UnlimitedTTL cache must not skip them.
+	atomic.AddInt64(&c.t.expirationsSet, 1)
+
 	c.t.NotifyExpiredAll(ctx, start, cnt)
 }
 
@@ -355,6 +358,10 @@ func (c *ShardedMapOf[V]) Restore(r io.Reader) (int, error) {
 		b.Lock()
 		b.data[h] = &e
 		b.Unlock()
+
+		if e.E != 0 {
+			atomic.AddInt64(&c.t.expirationsSet, 1)
+		}
 
 		n++
 	}
